@@ -137,6 +137,21 @@ impl<'a> ExpressionEvaluator<'a> {
                     ));
                 };
 
+                // Three-valued logic: `x BETWEEN a AND b` is `x >= a AND x <= b`. With a NULL operand the
+                // answer is FALSE if the comparison that can still be made fails, otherwise it is unknown
+                // (and NOT BETWEEN of unknown stays unknown).
+                let inner_null = matches!(inner[0], DataType::Null);
+                let low_null = matches!(low[0], DataType::Null);
+                let high_null = matches!(high[0], DataType::Null);
+                if inner_null || low_null || high_null {
+                    let fails_low = !inner_null && !low_null && !(inner[0] >= low[0]);
+                    let fails_high = !inner_null && !high_null && !(inner[0] <= high[0]);
+                    if fails_low || fails_high {
+                        return Ok(vec![DataType::Bool(Bool(false != *negated))]);
+                    }
+                    return Ok(vec![DataType::Null]);
+                }
+
                 Ok(vec![DataType::Bool(Bool(
                     (inner[0] >= low[0] && inner[0] <= high[0]) != *negated,
                 ))])
@@ -152,10 +167,15 @@ impl<'a> ExpressionEvaluator<'a> {
                 negated,
             } => {
                 let mut set: HashSet<DataType> = HashSet::new();
+                let mut list_has_null = false;
                 for exp in list {
                     let eval = self.evaluate(exp)?;
                     for item in eval {
-                        set.insert(item);
+                        if matches!(item, DataType::Null) {
+                            list_has_null = true;
+                        } else {
+                            set.insert(item);
+                        }
                     }
                 }
 
@@ -165,9 +185,16 @@ impl<'a> ExpressionEvaluator<'a> {
                         "cannot apply unary operators to lists of values!".to_string(),
                     ));
                 };
-                Ok(vec![DataType::Bool(Bool(
-                    set.contains(&evaluated[0]) != *negated,
-                ))])
+                // Three-valued logic: a NULL probe, or a miss against a list that holds a NULL, is unknown
+                // (for IN and for NOT IN alike); a hit is a hit whatever else the list holds.
+                if matches!(evaluated[0], DataType::Null) {
+                    return Ok(vec![DataType::Null]);
+                }
+                let found = set.contains(&evaluated[0]);
+                if !found && list_has_null {
+                    return Ok(vec![DataType::Null]);
+                }
+                Ok(vec![DataType::Bool(Bool(found != *negated))])
             }
             BoundExpression::Subquery { query, result_type } => {
                 Err(EvaluationError::InvalidExpression(
